@@ -18,7 +18,11 @@ RULE = ("MafWriter.from_fd(handle that survives close, header, Silent, assume_so
         "(empty, single, all ties, already sorted, reversed) / defect (unlisted chromosome, sort requested "
         "without a sortable order); for a share of the sorting cases the writer's MafSorter is built with "
         "max_objects_in_ram = 1..3 (constructor wrapped) and 4-10 records with pairwise distinct keys in random "
-        "order, so that several spill runs with interleaving key ranges are merged; non-trivial = sorting on, at least two records with distinct keys; "
+        "order, so that several spill runs with interleaving key ranges are merged; scheme-less records put their "
+        "extra column first or last and may leave it (or the last key column) empty, so that lines end in empty "
+        "columns; for a share of the scheme-less cases the caller re-uses ONE MafRecord object, editing its values in "
+        "place between writes (\"reuse\"), or edits the first record after handing it over (drops its last column / "
+        "adds a column: \"edit_first\"); non-trivial = sorting on, at least two records with distinct keys; "
         "distinct by hash of the case")
 ASSUMPTIONS = [
     "iterating the MafSorter returns a permutation of the added records sorted by the key function it was built with, "
@@ -62,6 +66,8 @@ def _gen_one(rng):
     if not typed:
         rng.shuffle(names)
     rows = []
+    other_first = (not typed) and rng.random() < 0.35      # then a key column is the last one
+    empty_other = (not typed) and rng.random() < 0.25      # lines ending in an empty column
     for f in fields:
         if stream == "valid" and f["chrom"] is None:
             f = dict(f, chrom=chroms[0])
@@ -76,7 +82,9 @@ def _gen_one(rng):
                     g[k] = "1"
             rows.append({"kind": "typed", "f": g})
         else:
-            rows.append({"kind": "untyped", "cols": [[nm, ("" if f[k] is None else f[k])] for nm, k in names] + [["Other", "x%d" % len(rows)]]})
+            other = ["Other", "" if empty_other else "x%d" % len(rows)]
+            cols = [[nm, ("" if f[k] is None else f[k])] for nm, k in names]
+            rows.append({"kind": "untyped", "cols": ([other] + cols) if other_first else (cols + [other])})
     if stream == "boundary" and n >= 2:
         r = rng.random()
         if r < 0.3:
@@ -104,7 +112,14 @@ def _gen_one(rng):
             lines.insert(rng.randrange(len(lines) + 1), "#center somewhere")
         hdr = {"lines": lines}
         declared = [ORDER_NAMES.get(order, order), contigs or None]
-    colnames = C.GDC_NAMES if typed else [nm for nm, _ in names] + ["Other"]
+    colnames = C.GDC_NAMES if typed else ((["Other"] + [nm for nm, _ in names]) if other_first else ([nm for nm, _ in names] + ["Other"]))
+    reuse = edit_first = None
+    if not typed and rows:
+        r = rng.random()
+        if r < 0.2:
+            reuse = True
+        elif r < 0.4:
+            edit_first = rng.choice(["drop_last", "drop_last", "add_col"])
     cap = None
     if want_cap and declared[0] in ("Coordinate", "BarcodesAndCoordinate"):
         # several spill runs: keep records with pairwise distinct (and listed) keys, in random order
@@ -119,7 +134,7 @@ def _gen_one(rng):
         if len(uniq) >= 4:
             rows, cap = uniq, rng.choice([1, 2, 2, 3])
     return {"stream": stream, "typed": typed, "sort": sort, "cap": cap, "hdr": hdr, "declared": declared,
-            "names": colnames, "rows": rows}
+            "names": colnames, "rows": rows, "reuse": reuse, "edit_first": edit_first}
 
 
 def generate(rng, n):
@@ -161,6 +176,16 @@ def corpus():
                [["chr2", "9", "9"], ["chr1", "1", "1"], ["chr10", "10", "10"], ["chr2", "10", "10"], ["chr10", "9", "9"], ["chr1", "2", "2"],
                 ["chr2", "1", "1"]], cap=3),
         _ucase(["#sort.order Coordinate"], ["Coordinate", None], [["chr1", p, p] for p in ("2", "3", "1", "4")], cap=1),
+        # the caller re-uses one record object, editing it in place between writes (text and key are taken at hand-over)
+        dict(_ucase(["#sort.order Coordinate"], ["Coordinate", None], [["chr1", "9", "9"], ["chr1", "5", "5"], ["chr1", "7", "7"]]), reuse=True),
+        dict(_ucase(["#sort.order Coordinate"], ["Coordinate", None], [["chr2", "1", "1"], ["chr1", "5", "5"], ["chr1", "3", "3"], ["chr1", "4", "4"]], cap=2),
+             reuse=True),
+        # the caller edits the first record after handing it over (the sorter may not keep a live view of its names)
+        dict(_ucase(["#sort.order Coordinate"], ["Coordinate", None], [["chr1", "9", "9"], ["chr1", "5", "5"], ["chr1", "7", "7"]]), edit_first="drop_last"),
+        dict(_ucase(["#sort.order Coordinate"], ["Coordinate", None], [["chr1", "9", "9"], ["chr1", "5", "5"]]), edit_first="add_col"),
+        # records whose last column is empty keep their trailing tab through the sorter
+        _ucase(["#sort.order Coordinate"], ["Coordinate", None], [["chr10", "9", ""], ["chr2", "3", ""], ["chr1", "5", "5"]]),
+        _ucase(["#sort.order Coordinate"], ["Coordinate", None], [["chr10", "", ""], ["chr2", "", ""]], cap=1),
         # two-digit contig ranks on the writer path
         _ucase(["#sort.order Coordinate", "#contigs " + ",".join(C.CHR_LONG)], ["Coordinate", C.CHR_LONG],
                [["chr11", "1", "1"], ["chrX", "1", "1"], ["chr3", "5", "5"], ["chr10", "2", "2"], ["chr9", "7", "7"], ["chr2", "1", "1"]]),
@@ -266,13 +291,28 @@ def run_impl(case):
         header = _header(case)
         writer = MafWriter.from_fd(fd, header, validation_stringency=silent, assume_sorted=not case["sort"])
         scheme = find_scheme(version="gdc-1.0.0", annotation=None) if case["typed"] else None
-        for d in case["rows"]:
+        shared = None
+        for i, d in enumerate(case["rows"]):
             if case["typed"]:
                 rec = MafRecord.from_line(C.typed_line(d["f"]), scheme=scheme, validation_stringency=silent)
+            elif case.get("reuse") and shared is not None:
+                # the caller's one record object, edited in place
+                rec = shared
+                for n, v in d["cols"]:
+                    rec[n].value = v
             else:
                 rec = MafRecord.from_line(C.untyped_line(d["cols"]), column_names=[n for n, _ in d["cols"]],
                                           validation_stringency=silent)
+                shared = rec
             writer += rec
+            if i == 0 and case.get("edit_first") and not case["typed"]:
+                # the caller goes on editing the record it has handed over
+                if case["edit_first"] == "drop_last":
+                    del rec[d["cols"][-1][0]]
+                else:
+                    from maflib.column import MafColumnRecord
+
+                    rec.add(MafColumnRecord(key="Extra", value="z"))
         writer.close()
     except Exception as e:
         end = C.exc_code(e)
@@ -371,7 +411,8 @@ def classify(case, obs):
     o = {"Coordinate": "C", "BarcodesAndCoordinate": "B"}.get(order, "nosort")
     return "%s/%s/%s/sort=%s%s/%s/contigs=%s/%s" % (
         case["stream"], "typed" if case["typed"] else "untyped", "api" if "api" in case["hdr"] else "lines",
-        "on" if case["sort"] else "off", ("/cap=%d" % case["cap"]) if case.get("cap") else "", o, "yes" if case["declared"][1] else "no",
+        "on" if case["sort"] else "off", (("/cap=%d" % case["cap"]) if case.get("cap") else "")
+        + ("/reuse" if case.get("reuse") else "") + (("/" + case["edit_first"]) if case.get("edit_first") else ""), o, "yes" if case["declared"][1] else "no",
         "ok" if obs["end"] is None else "raised")
 
 
